@@ -280,7 +280,7 @@ def Crud.isOk : Crud → Bool
 
 /-- `reconcile_resource_function`: preconditions, locals, the Kubernetes part (apiConfig, plural
     discovery, GET, …), then — only if that part produced an object — postconditions, then return -/
-def rfRun (pre post : List Pred) (lk : Lookup) (crud : Crud) : Run :=
+def rfRunR (hasReturn : Bool) (pre post : List Pred) (lk : Lookup) (crud : Crud) : Run :=
   match decide pre with
   | some d => ⟨.decided d, [.preconditions]⟩
   | none =>
@@ -292,7 +292,10 @@ def rfRun (pre post : List Pred) (lk : Lookup) (crud : Crud) : Run :=
       if crud.isOk then
         match decide post with
         | some d => ⟨.decided d, t ++ [.postconditions]⟩
-        | none => ⟨.body "return", t ++ [.postconditions, .returnValue]⟩
+        | none => ⟨.body "return", t ++ [.postconditions] ++ (if hasReturn then [.returnValue] else [])⟩
       else ⟨.body "retry", t⟩
+
+/-- a ResourceFunction with a `return` (one without evaluates nothing after the postconditions and is Ok with `null`) -/
+def rfRun (pre post : List Pred) (lk : Lookup) (crud : Crud) : Run := rfRunR true pre post lk crud
 
 end Koreo.Predicates
